@@ -7,6 +7,7 @@ class C02(TieCheck):
     props = ["Props_C02.v", "Props_C02_tree.v"]
     coq_targets = ["CorrHist.vo", "CorrIter.vo", "CorrWF.vo"]
     extra_props = [("Compose", "Props_Compose.v")]
+    gentie = "C02"
     harness = "c02"
     extra_trust = ["model: coq/Route/Tree.v (insert / update / remove / truncate of tree.go on pure trees) run through CorrHist.hstep (router + transaction); specification: coq/Route/MapSpec.v (sequential map keyed by (method, pattern), conflict rule on token lists)",
                    "pattern validity (ErrInvalidRoute), psLen and hostSplit are taken from the real parseRoute (oracle input; parseRoute itself is C10)"]
